@@ -2,6 +2,7 @@ package harness
 
 import (
 	"fmt"
+	"math/big"
 )
 
 // Reference model of the key engine, written from the property texts (C02, C03, C04, C13, C14)
@@ -134,12 +135,23 @@ func (m *Model) Key(sub string, code uint16, val int32) ModelStep {
 
 func (m *Model) press(code PK, k KeyDef) ModelStep {
 	st := ModelStep{Kind: "note-press"}
-	pitch := k.Note + 12*m.Octave + m.Semitone
-	st.Pitch = pitch
-	if pitch < 0 || pitch > 127 {
+	// the pitch of the statement, in integers without a width: octave and semitone may be anything a configuration states
+	exact := new(big.Int).Mul(big.NewInt(12), big.NewInt(int64(m.Octave)))
+	exact.Add(exact, big.NewInt(int64(m.Semitone))).Add(exact, big.NewInt(int64(k.Note)))
+	if exact.Sign() < 0 || exact.Cmp(big.NewInt(127)) > 0 {
 		st.OutOfRange = true
+		st.Pitch = -1
+		if exact.IsInt64() {
+			st.Pitch = int(exact.Int64())
+		} else if exact.Sign() > 0 {
+			st.Pitch = 1 << 62
+		} else {
+			st.Pitch = -(1 << 62)
+		}
 		return st
 	}
+	pitch := int(exact.Int64())
+	st.Pitch = pitch
 	ch := (m.Channel + k.Off) % 16
 	st.Wrapped = m.Channel+k.Off > 15
 	hn := heldNote{ch, pitch}
